@@ -27,6 +27,7 @@ import (
 	"github.com/codelaboratoryltd/bng/pkg/radius"
 	"go.uber.org/zap"
 
+	"verif/explore"
 	"verif/nativebpf"
 	"verif/report"
 )
@@ -131,7 +132,7 @@ func TestCheck(t *testing.T) {
 	defer k.Close()
 	bin := filepath.Join(dir, "drv_qos_ratelimit")
 	if *report.FlagReplay != "" {
-		os.Exit(replay(bin))
+		os.Exit(replay(bin, run, k))
 	}
 
 	depth, periodic := 3, "100000"
@@ -195,6 +196,7 @@ func TestCheck(t *testing.T) {
 			}
 		}
 	}
+	runPolicyHistories(run, k)
 	var mu sync.Mutex
 	var wg sync.WaitGroup
 	sem := make(chan struct{}, 16)
@@ -235,11 +237,25 @@ func TestCheck(t *testing.T) {
 	os.Exit(run.Finish())
 }
 
-func replay(bin string) int {
+func replay(bin string, run *report.Run, k *nativebpf.Kernel) int {
 	v, err := report.LoadReplay(*report.FlagReplay)
 	if err != nil {
 		fmt.Println("HARNESS-ERROR", err)
 		return 2
+	}
+	if strings.HasPrefix(v.Part, policyPart) {
+		vs, p := policyModel(run, k).Replay(v.Trace)
+		if p != "" {
+			vs = append(vs, explore.Viol{Kind: "panic", Detail: p})
+		}
+		for _, x := range vs {
+			fmt.Printf("VIOLATION property=C19 replay=%s\n  kind=%s site=%s detail=%s\n", *report.FlagReplay, x.Kind, x.Site, x.Detail)
+		}
+		if len(vs) > 0 {
+			return 1
+		}
+		fmt.Println("replay: no violation")
+		return 0
 	}
 	g := func(k string) string { return fmt.Sprint(v.Extra[k]) }
 	vs, _, err := runC19(bin, g("depth"), g("periodic"), g("origin"), g("hex"), g("dir"))
